@@ -237,7 +237,7 @@ theorem delAt_of_ge {ls : List PatchLine} {k : Nat} (h : (oldOf ls).length ≤ k
   simp [delAt, this]
 
 theorem mem_srcIdxs_hunkOutput (file : List Line) : ∀ ls p i, OpsOK ls →
-    p + (oldOf ls).length ≤ file.length → p ≤ i → i < p + (oldOf ls).length →
+    i < file.length → p ≤ i → i < p + (oldOf ls).length →
     (i ∈ srcIdxs (hunkOutput file ls p) ↔ delAt ls (i - p) = false) := by
   intro ls
   induction ls with
@@ -248,7 +248,7 @@ theorem mem_srcIdxs_hunkOutput (file : List Line) : ∀ ls p i, OpsOK ls →
     rcases hops.head with hop | hop | hop
     · -- context line
       have hp' : (pl.op == PLUS) = false := by simp [hop]
-      rw [oldOf_cons_not_plus hp', List.length_cons] at hfit h2
+      rw [oldOf_cons_not_plus hp', List.length_cons] at h2
       have hlt : p < file.length := by omega
       simp only [hop, SP_beq_PLUS, if_false, beq_self_eq_true, if_true, Bool.false_eq_true,
         List.getElem?_eq_getElem hlt, srcIdxs_append, srcIdxs_cons_fromFile, srcIdxs_nil]
@@ -256,15 +256,15 @@ theorem mem_srcIdxs_hunkOutput (file : List Line) : ∀ ls p i, OpsOK ls →
       · subst hi
         simp [delAt_cons_zero hp', hop]
       · have : i - p = (i - (p + 1)) + 1 := by omega
-        rw [this, delAt_cons_succ hp', ← ih (p + 1) i hops.tail (by omega) (by omega) (by omega)]
+        rw [this, delAt_cons_succ hp', ← ih (p + 1) i hops.tail hfit (by omega) (by omega)]
         simp [hi]
     · -- addition
-      rw [oldOf_cons_plus hop] at hfit h2
+      rw [oldOf_cons_plus hop] at h2
       simp only [hop, beq_self_eq_true, if_true, srcIdxs_cons_fromPatch, delAt_cons_plus hop]
       exact ih p i hops.tail hfit h1 h2
     · -- deletion
       have hp' : (pl.op == PLUS) = false := by simp [hop]
-      rw [oldOf_cons_not_plus hp', List.length_cons] at hfit h2
+      rw [oldOf_cons_not_plus hp', List.length_cons] at h2
       simp only [hop, MINUS_beq_PLUS, MINUS_beq_SP, if_false, Bool.false_eq_true]
       by_cases hi : i = p
       · subst hi
@@ -274,7 +274,35 @@ theorem mem_srcIdxs_hunkOutput (file : List Line) : ∀ ls p i, OpsOK ls →
         · intro h; cases h
       · have : i - p = (i - (p + 1)) + 1 := by omega
         rw [this, delAt_cons_succ hp']
-        exact ih (p + 1) i hops.tail (by omega) (by omega) (by omega)
+        exact ih (p + 1) i hops.tail hfit (by omega) (by omega)
+
+/-- an output item copied from the file comes from a line of the file -/
+theorem srcIdxs_hunkOutput_lt (file : List Line) (ls : List PatchLine) (p i : Nat)
+    (h : i ∈ srcIdxs (hunkOutput file ls p)) : i < file.length := by
+  have hf := hunkOutput_faithful file ls p
+  simp only [srcIdxs, List.mem_filterMap] at h
+  obtain ⟨o, ho, hoi⟩ := h
+  cases o with
+  | fromFile j l =>
+    simp only [Out.srcIdx, Option.some.injEq] at hoi
+    subst hoi
+    have := hf _ ho j l rfl
+    exact (List.getElem?_eq_some_iff.1 this).1
+  | fromPatch l => simp [Out.srcIdx] at hoi
+  | directive l => simp [Out.srcIdx] at hoi
+
+/-- beyond the end of the file a hunk writes its additions only, wherever it is put -/
+theorem hunkOutput_beyond (file : List Line) : ∀ ls c c', file.length ≤ c → file.length ≤ c' →
+    hunkOutput file ls c = hunkOutput file ls c' := by
+  intro ls
+  induction ls with
+  | nil => intros; rfl
+  | cons pl rest ih =>
+    intro c c' hc hc'
+    rw [hunkOutput, hunkOutput]
+    have h1 : file[c]? = none := List.getElem?_eq_none hc
+    have h2 : file[c']? = none := List.getElem?_eq_none hc'
+    rw [h1, h2, ih c c' hc hc', ih (c + 1) (c' + 1) (by omega) (by omega)]
 
 /-! ### write_hunk writes `hunkOutput` -/
 
@@ -290,8 +318,9 @@ theorem writeHunk_eq (file : List Line) : ∀ ls p, OpsOK ls → p + (oldOf ls).
     · have hp' : (pl.op == PLUS) = false := by simp [hop]
       rw [oldOf_cons_not_plus hp', List.length_cons] at hfit ⊢
       have hlt : p < file.length := by omega
+      have hne : (p == file.length) = false := by simp; omega
       simp only [hop, SP_beq_PLUS, if_false, beq_self_eq_true, if_true, Bool.false_eq_true,
-        List.getElem?_eq_getElem hlt]
+        List.getElem?_eq_getElem hlt, hne]
       rw [ih (p + 1) hops.tail (by omega)]
       simp; omega
     · rw [oldOf_cons_plus hop] at hfit ⊢
@@ -304,6 +333,73 @@ theorem writeHunk_eq (file : List Line) : ∀ ls p, OpsOK ls → p + (oldOf ls).
       rw [ih (p + 1) hops.tail (by omega)]
       simp; omega
 
+/-- D99: at the end of the file a hunk without further deletions writes its additions and stays there -/
+theorem writeHunk_at_end (file : List Line) : ∀ ls, OpsOK ls → (∀ k, delAt ls k = false) →
+    writeHunk file ls file.length = some (hunkOutput file ls file.length, file.length) := by
+  intro ls
+  induction ls with
+  | nil => intro _ _; simp [writeHunk, hunkOutput]
+  | cons pl rest ih =>
+    intro hops hdel
+    rw [writeHunk, hunkOutput]
+    rcases hops.head with hop | hop | hop
+    · have hp' : (pl.op == PLUS) = false := by simp [hop]
+      have hdel' : ∀ k, delAt rest k = false := fun k => by
+        have := hdel (k + 1); rwa [delAt_cons_succ hp'] at this
+      have h1 : file[file.length]? = none := List.getElem?_eq_none (Nat.le_refl _)
+      simp only [hop, SP_beq_PLUS, if_false, beq_self_eq_true, if_true, Bool.false_eq_true, h1]
+      rw [ih hops.tail hdel', hunkOutput_beyond file rest (file.length + 1) file.length (by omega) (by omega)]
+      simp
+    · have hdel' : ∀ k, delAt rest k = false := fun k => by
+        have := hdel k; rwa [delAt_cons_plus hop] at this
+      simp only [hop, beq_self_eq_true, if_true, PLUS_beq_SP, if_false, Bool.false_eq_true]
+      rw [ih hops.tail hdel']
+      simp
+    · have hp' : (pl.op == PLUS) = false := by simp [hop]
+      have := hdel 0
+      rw [delAt_cons_zero hp'] at this
+      simp [hop] at this
+
+/-- D99: `write_hunk` for a hunk whose lines beyond the end of the file are all context: it writes `hunkOutput` and
+    stops behind its old side or at the end of the file -/
+theorem writeHunk_eq_min (file : List Line) : ∀ ls p, OpsOK ls → p ≤ file.length →
+    (∀ k, file.length ≤ p + k → delAt ls k = false) →
+    writeHunk file ls p = some (hunkOutput file ls p, min (p + (oldOf ls).length) file.length) := by
+  intro ls
+  induction ls with
+  | nil => intro p _ hp _; simp [writeHunk, hunkOutput, oldOf]; omega
+  | cons pl rest ih =>
+    intro p hops hple hdel
+    by_cases hpe : p = file.length
+    · subst hpe
+      rw [writeHunk_at_end file _ hops (fun k => hdel k (by omega))]
+      congr 2; omega
+    have hlt : p < file.length := by omega
+    rw [writeHunk, hunkOutput]
+    rcases hops.head with hop | hop | hop
+    · have hp' : (pl.op == PLUS) = false := by simp [hop]
+      have hdel' : ∀ k, file.length ≤ p + 1 + k → delAt rest k = false := fun k hk => by
+        have := hdel (k + 1) (by omega); rwa [delAt_cons_succ hp'] at this
+      rw [oldOf_cons_not_plus hp', List.length_cons]
+      have hne : (p == file.length) = false := by simp; omega
+      simp only [hop, SP_beq_PLUS, if_false, beq_self_eq_true, if_true, Bool.false_eq_true,
+        List.getElem?_eq_getElem hlt, hne]
+      rw [ih (p + 1) hops.tail (by omega) hdel']
+      simp; omega
+    · have hdel' : ∀ k, file.length ≤ p + k → delAt rest k = false := fun k hk => by
+        have := hdel k hk; rwa [delAt_cons_plus hop] at this
+      rw [oldOf_cons_plus hop]
+      simp only [hop, beq_self_eq_true, if_true, PLUS_beq_SP, if_false, Bool.false_eq_true]
+      rw [ih p hops.tail hple hdel']
+      simp
+    · have hp' : (pl.op == PLUS) = false := by simp [hop]
+      have hdel' : ∀ k, file.length ≤ p + 1 + k → delAt rest k = false := fun k hk => by
+        have := hdel (k + 1) (by omega); rwa [delAt_cons_succ hp'] at this
+      rw [oldOf_cons_not_plus hp', List.length_cons]
+      simp only [hop, MINUS_beq_PLUS, MINUS_beq_SP, if_false, beq_self_eq_true, if_true, Bool.false_eq_true]
+      rw [ih (p + 1) hops.tail (by omega) hdel']
+      simp; omega
+
 /-! ### spliceAt -/
 
 theorem spliceAt_nil (file : List Line) (c : Nat) :
@@ -311,13 +407,42 @@ theorem spliceAt_nil (file : List Line) (c : Nat) :
 
 theorem spliceAt_cons (file : List Line) (c : Nat) (h : Hunk) (p : Nat) (rest : List (Hunk × Nat)) :
     spliceAt file c ((h, p) :: rest) =
-      copyRange file c (p - c) ++ hunkOutput file h.lines p ++ spliceAt file (p + (oldOf h.lines).length) rest := rfl
+      copyRange file c (p - c) ++ hunkOutput file h.lines p ++ spliceAt file (nextCursor file h p) rest := rfl
+
+theorem nextCursor_le (file : List Line) (h : Hunk) (p : Nat) : nextCursor file h p ≤ file.length := by
+  unfold nextCursor; omega
+
+theorem nextCursor_le_old (file : List Line) (h : Hunk) (p : Nat) : nextCursor file h p ≤ p + (oldOf h.lines).length := by
+  unfold nextCursor; omega
+
+theorem le_nextCursor {file : List Line} (h : Hunk) {p : Nat} (hp : p ≤ file.length) : p ≤ nextCursor file h p := by
+  unfold nextCursor; omega
+
+/-- inside the file the cursor goes on behind the old side, as it always did -/
+theorem nextCursor_of_fit {file : List Line} {h : Hunk} {p : Nat} (hfit : p + (oldOf h.lines).length ≤ file.length) :
+    nextCursor file h p = p + (oldOf h.lines).length := by
+  unfold nextCursor; omega
+
+theorem spliceAt_cons_of_fit (file : List Line) (c : Nat) (h : Hunk) (p : Nat) (rest : List (Hunk × Nat))
+    (hfit : p + (oldOf h.lines).length ≤ file.length) :
+    spliceAt file c ((h, p) :: rest) =
+      copyRange file c (p - c) ++ hunkOutput file h.lines p ++ spliceAt file (p + (oldOf h.lines).length) rest := by
+  rw [spliceAt_cons, nextCursor_of_fit hfit]
 
 theorem increasingB_cons {file : List Line} {c : Nat} {h : Hunk} {p : Nat} {rest : List (Hunk × Nat)} :
     increasingB file c ((h, p) :: rest) = true ↔
-      c ≤ p ∧ p + (oldOf h.lines).length ≤ file.length ∧
-        increasingB file (p + (oldOf h.lines).length) rest = true := by
+      c ≤ p ∧ p ≤ file.length ∧
+        increasingB file (nextCursor file h p) rest = true := by
   simp [increasingB, and_assoc]
+
+theorem increasingB_cons_of_fit {file : List Line} {c : Nat} {h : Hunk} {p : Nat} {rest : List (Hunk × Nat)}
+    (hfit : p + (oldOf h.lines).length ≤ file.length) :
+    increasingB file c ((h, p) :: rest) = true ↔
+      c ≤ p ∧ increasingB file (p + (oldOf h.lines).length) rest = true := by
+  rw [increasingB_cons, nextCursor_of_fit hfit]
+  constructor
+  · rintro ⟨a, _, b⟩; exact ⟨a, b⟩
+  · rintro ⟨a, b⟩; exact ⟨a, by omega, b⟩
 
 theorem increasingB_nil {file : List Line} {c : Nat} : increasingB file c [] = true ↔ c ≤ file.length := by
   simp [increasingB]
@@ -344,6 +469,7 @@ theorem srcIdxs_spliceAt_ge (file : List Line) : ∀ pls c, increasingB file c p
     intro c hinc i hi
     obtain ⟨h, p⟩ := hp
     obtain ⟨h1, h2, h3⟩ := increasingB_cons.1 hinc
+    have hnc : nextCursor file h p = min (p + (oldOf h.lines).length) file.length := rfl
     rw [spliceAt_cons, srcIdxs_append, srcIdxs_append, List.mem_append, List.mem_append] at hi
     rcases hi with (hi | hi) | hi
     · exact (mem_srcIdxs_copyRange.1 hi).1
@@ -359,6 +485,7 @@ theorem srcIdxs_spliceAt_sorted (file : List Line) : ∀ pls c, increasingB file
     intro c hinc
     obtain ⟨h, p⟩ := hp
     obtain ⟨h1, h2, h3⟩ := increasingB_cons.1 hinc
+    have hnc : nextCursor file h p = min (p + (oldOf h.lines).length) file.length := rfl
     rw [spliceAt_cons, srcIdxs_append, srcIdxs_append, List.pairwise_append, List.pairwise_append]
     refine ⟨⟨srcIdxs_copyRange_sorted .., srcIdxs_hunkOutput_sorted .., ?_⟩, ih _ h3, ?_⟩
     · intro a ha b hb
@@ -369,7 +496,8 @@ theorem srcIdxs_spliceAt_sorted (file : List Line) : ∀ pls c, increasingB file
       have hb := srcIdxs_spliceAt_ge file _ _ h3 b hb
       rcases List.mem_append.1 ha with ha | ha
       · have := mem_srcIdxs_copyRange.1 ha; omega
-      · have := srcIdxs_hunkOutput_bounds file _ _ _ ha; omega
+      · have := srcIdxs_hunkOutput_bounds file _ _ _ ha
+        have := srcIdxs_hunkOutput_lt file _ _ _ ha; omega
 
 /-- original line `i` lies under a '-' line of one of the placements -/
 def delB (pls : List (Hunk × Nat)) (i : Nat) : Bool :=
@@ -387,6 +515,7 @@ theorem delB_of_lt (file : List Line) : ∀ pls c i, increasingB file c pls = tr
     intro c i hinc hi
     obtain ⟨h, p⟩ := hp
     obtain ⟨h1, h2, h3⟩ := increasingB_cons.1 hinc
+    have hnc : nextCursor file h p = min (p + (oldOf h.lines).length) file.length := rfl
     rw [delB_cons, ih _ i h3 (by omega)]
     have : ¬ p ≤ i := by omega
     simp [this]
@@ -404,6 +533,7 @@ theorem mem_srcIdxs_spliceAt (file : List Line) : ∀ pls c, increasingB file c 
     intro c hinc hops i hi1 hi2
     obtain ⟨h, p⟩ := hp
     obtain ⟨h1, h2, h3⟩ := increasingB_cons.1 hinc
+    have hnc : nextCursor file h p = min (p + (oldOf h.lines).length) file.length := rfl
     have hops' : ∀ hp ∈ rest, OpsOK hp.1.lines := fun x hx => hops x (List.mem_cons_of_mem _ hx)
     have hopsh : OpsOK h.lines := hops (h, p) (List.mem_cons_self ..)
     rw [spliceAt_cons, srcIdxs_append, srcIdxs_append, List.mem_append, List.mem_append, delB_cons]
@@ -415,10 +545,10 @@ theorem mem_srcIdxs_spliceAt (file : List Line) : ∀ pls c, increasingB file c 
       exact Or.inl (Or.inl (mem_srcIdxs_copyRange.2 ⟨hi1, by omega, hi2⟩))
     · by_cases hB : i < p + (oldOf h.lines).length
       · -- under the hunk
-        have hd : delB rest i = false := delB_of_lt file rest _ i h3 hB
+        have hd : delB rest i = false := delB_of_lt file rest _ i h3 (by omega)
         have hpi : p ≤ i := by omega
         simp only [hd, hpi, decide_true, Bool.true_and, Bool.or_false]
-        rw [← mem_srcIdxs_hunkOutput file h.lines p i hopsh h2 hpi hB]
+        rw [← mem_srcIdxs_hunkOutput file h.lines p i hopsh hi2 hpi hB]
         constructor
         · rintro ((hm | hm) | hm)
           · have := mem_srcIdxs_copyRange.1 hm; omega
